@@ -770,6 +770,9 @@ def add_sum_pow2_m1(
     if n == 1:
         return [reverse_if_big_endian([input_labels[0]], big_endian)]
 
+    if isinstance(basis, str):
+        basis = GenerationBasis(basis.upper())
+
     out = []
     it = 0
     while len(input_labels) > 2:
@@ -782,7 +785,10 @@ def add_sum_pow2_m1(
                 it += 1
 
     if len(input_labels) == 2:
-        out.append(add_sum2(circuit, input_labels[0:2]))
+        if basis == GenerationBasis.AIG:
+            out.append(add_sum2_aig(circuit, input_labels[0:2]))
+        else:
+            out.append(add_sum2(circuit, input_labels[0:2]))
         input_labels = input_labels[2:]
         input_labels.append(out[it][0])
 
